@@ -21,7 +21,11 @@ Inductive op10 :=
   | OInsert (m r : N)                 (* maps[m].insert_region(regions[r]): 1 map slot *)
   | ORemove (m base size : N)         (* maps[m].remove_region(base,size): 1 map slot *)
   | OFind (m a : N)                   (* maps[m].find_region(a): no slot *)
-  | ONewMap.                          (* GuestMemoryMmap::new(): 1 map slot (empty map) *)
+  | ONewMap                           (* GuestMemoryMmap::new(): 1 map slot (empty map) *)
+  (* the same two creations through the other public constructor routes (both build flavours):
+     f = 0 no file, 1 a backing file mapped from offset 0, 2 a backing file mapped from offset 65536 *)
+  | ONewVia (f base size : N)         (* GuestRegionMmap::from_range(base, size, file f): 1 region slot *)
+  | OFromRangesF (l : list (N * N * N)). (* from_ranges_with_files([(start, len, file f)]): |l| region slots, 1 map slot *)
 Record case10 := { c_mode : mode; c_ops : list op10 }.
 
 (* observation of one operation:
@@ -81,6 +85,32 @@ Definition judge_build (p : list (option reg)) (L : list reg) (o : obs10) : bool
 Fixpoint mk_regs (id : N) (l : list (N * N)) {struct l} : list reg :=
   match l with [] => [] | (s, len) :: t => {| g_id := id; g_s := s; g_l := len |} :: mk_regs (id + 1) t end.
 Definition dead {T} (n : nat) : list (option T) := repeat None n.
+
+(* creation of one region handle, whatever the constructor route: judged as refused-or-not only
+   (ok_new / ok_ranges are used by ok_step below, after it has looked at the `intact` verdict) *)
+Definition ok_new (st : st10) (base size : N) (o : obs10) : option st10 :=
+  let p := pool st in let ms := maps st in
+  let refused_ok := if end_exceeds base size then negb (o_code o =? 0) else true in
+  if refused_ok && ((o_code o =? 0) || (o_code o =? 1) || (o_code o =? 2)) then
+    Some {| pool := p ++ [if o_code o =? 0 then Some {| g_id := nlen p; g_s := base; g_l := size |} else None];
+            maps := ms |}
+  else None.
+(* a map built from (start, len) ranges, whatever the constructor route *)
+Definition ok_ranges (st : st10) (l : list (N * N)) (o : obs10) : option st10 :=
+  let p := pool st in let ms := maps st in
+  let L := mk_regs (nlen p) l in
+  let p_ok := p ++ map Some L in
+  let p_no := p ++ dead (length l) in
+  let refused := (o_code o =? 1) || (o_code o =? 2) in
+  if existsb (fun sl => end_exceeds (fst sl) (snd sl)) l then
+    if refused then Some {| pool := p_no; maps := ms ++ [None] |} else None
+  else if existsb (fun sl => border (fst sl) (snd sl)) l && refused then
+    Some {| pool := p_no; maps := ms ++ [None] |}
+  else if judge_build p_ok L o then
+    Some {| pool := if o_code o =? 0 then p_ok else p_no;
+            maps := ms ++ [if o_code o =? 0 then Some (o_regs o) else None] |}
+  else None.
+Definition strip_files (l : list (N * N * N)) : list (N * N) := map fst l.
 
 (* one step: None = the observation is rejected; Some st' = accepted, continue with st' *)
 Definition ok_step (st : st10) (op : op10) (o : obs10) : option st10 :=
@@ -149,6 +179,9 @@ Definition ok_step (st : st10) (op : op10) (o : obs10) : option st10 :=
       end
   | ONewMap =>
       match o_regs o with [] => newmap (o_code o =? 0) | _ => None end
+  (* the property does not distinguish constructor routes: same judgement as ONew / OFromRanges *)
+  | ONewVia _ base size => ok_new st base size o
+  | OFromRangesF l => ok_ranges st (strip_files l) o
   end.
 
 Fixpoint ok_steps (st : st10) (ops : list op10) (obs : list obs10) {struct ops} : bool :=
